@@ -52,6 +52,18 @@ const MAX_IDS: u8 = 4;
 enum SimKey {
     Real(RealWrapped<CS>),
     Synth { id: BaseId, payload: Vec<u8> },
+    /// A key whose encoding fails part of the way through (the injected fault of this engine:
+    /// the one failure a caller can cause inside `insert` without a seam below the store).
+    Poison { id: BaseId, bomb: Bomb },
+}
+
+#[derive(Clone, Deserialize)]
+struct Bomb;
+
+impl Serialize for Bomb {
+    fn serialize<S: serde::Serializer>(&self, _s: S) -> Result<S::Ok, S::Error> {
+        Err(serde::ser::Error::custom("kssim: injected encoding failure"))
+    }
 }
 
 impl WrappedKey for SimKey {}
@@ -61,7 +73,7 @@ impl Identified for SimKey {
     fn id(&self) -> Result<BaseId, IdError> {
         match self {
             SimKey::Real(k) => k.id(),
-            SimKey::Synth { id, .. } => Ok(*id),
+            SimKey::Synth { id, .. } | SimKey::Poison { id, .. } => Ok(*id),
         }
     }
 }
@@ -183,6 +195,13 @@ enum Op {
     Reclone {
         of: u8,
     },
+    /// Fault: insert a key whose encoding fails half way (file-system store only; the
+    /// in-memory store never encodes). Through a vacant entry or through `try_insert`.
+    FailInsert {
+        h: u8,
+        id: u8,
+        via_entry: bool,
+    },
 }
 
 fn gen_key(rng: &mut Rng) -> KeyRef {
@@ -220,7 +239,7 @@ fn gen_history(seed: u64, tier: Tier) -> Vec<Op> {
     for _ in 0..len {
         let h = u8::from(rng.chance(second_handle_num, 4));
         let id = rng.below(u64::from(nids)) as u8;
-        let op = match rng.weighted(&[w_entry, 15, 20, 12, w_reopen, 6]) {
+        let op = match rng.weighted(&[w_entry, 15, 20, 12, w_reopen, 6, 5]) {
             0 => {
                 let vac = if rng.chance(3, 5) {
                     VacAct::Insert(gen_key(&mut rng))
@@ -249,8 +268,13 @@ fn gen_history(seed: u64, tier: Tier) -> Vec<Op> {
             4 => Op::Reopen {
                 second_open: rng.chance(1, 3),
             },
-            _ => Op::Reclone {
+            5 => Op::Reclone {
                 of: u8::from(rng.chance(1, 4)),
+            },
+            _ => Op::FailInsert {
+                h,
+                id,
+                via_entry: rng.chance(1, 2),
             },
         };
         ops.push(op);
@@ -371,7 +395,7 @@ fn exec_on<S: KeyStore>(store: &mut S, op: &Op, pool: &[SimKey], out: &mut Vec<O
             });
         }
         Op::Remove { id, .. } => out.push(opt_result(store.remove::<SimKey>(store_id(*id)))),
-        Op::Reopen { .. } | Op::Reclone { .. } => {}
+        Op::Reopen { .. } | Op::Reclone { .. } | Op::FailInsert { .. } => {}
     }
 }
 
@@ -446,7 +470,7 @@ fn model_step(
             Some(v) => out.push(("remove#present", Obs::Some(v))),
             None => out.push(("remove#absent", Obs::None)),
         },
-        Op::Reopen { .. } | Op::Reclone { .. } => {}
+        Op::Reopen { .. } | Op::Reclone { .. } | Op::FailInsert { .. } => {}
     }
     out
 }
@@ -649,6 +673,61 @@ fn run_history(ops: &[Op], pool: &[SimKey], keep_log: bool) -> RunOut {
                 harness!(fs.reclone(*of));
                 bump(&mut out.stats, "reclone");
                 lg.line(format!("{step} reclone of={of}"));
+                continue;
+            }
+            Op::FailInsert { h, id, via_entry } => {
+                // A store is a map: an id becomes occupied only by a successful insert. An
+                // insert that fails must leave the id as it was and nothing behind.
+                let present = model.contains_key(id);
+                let before = harness!(fs.listing());
+                let store = &mut fs.handles[usize::from(*h & 1)];
+                let key = SimKey::Poison { id: store_id(*id), bomb: Bomb };
+                let got: String = catch_unwind(AssertUnwindSafe(|| {
+                    if *via_entry {
+                        match store.entry::<SimKey>(store_id(*id)) {
+                            Err(e) => format!("entry-error:{e}"),
+                            Ok(Entry::Occupied(_)) => "occupied".to_string(),
+                            Ok(Entry::Vacant(v)) => match v.insert(key) {
+                                Ok(()) => "inserted".to_string(),
+                                Err(_) => "refused".to_string(),
+                            },
+                        }
+                    } else {
+                        match store.try_insert(store_id(*id), key) {
+                            Ok(()) => "inserted".to_string(),
+                            Err(e) if matches!(err_obs(&e), Obs::ErrExists) => "occupied".to_string(),
+                            Err(_) => "refused".to_string(),
+                        }
+                    }
+                }))
+                .unwrap_or_else(|p| format!("panic:{}", panic_text(p)));
+                let want = if present { "occupied" } else { "refused" };
+                bump(&mut out.stats, if present { "fail_insert#occupied" } else { "fail_insert#vacant" });
+                if !present {
+                    out.nontrivial = true;
+                }
+                lg.line(format!("{step} fail_insert h={h} id={id} via_entry={via_entry} expect={want} fs={got}"));
+                if got != want {
+                    out.viol = Some(Viol {
+                        class: format!("{PROPERTY}.failed-insert"),
+                        sig: format!("fs:failed-insert:{want}->{}", got.split(':').next().unwrap_or("")),
+                        detail: format!("step {step} {op:?}: inserting a key whose encoding fails: property says {want}, fs store gave {got}"),
+                        step,
+                    });
+                    break 'steps;
+                }
+                let after = harness!(fs.listing());
+                if after != before {
+                    let extra: Vec<_> = after.difference(&before).cloned().collect();
+                    let gone: Vec<_> = before.difference(&after).cloned().collect();
+                    out.viol = Some(Viol {
+                        class: format!("{PROPERTY}.failed-insert-residue"),
+                        sig: format!("fs:failed-insert:directory-changed:+{}-{}", extra.len().min(1), gone.len().min(1)),
+                        detail: format!("step {step} {op:?}: a failed insert changed the directory: new {extra:?}, missing {gone:?} (the id now looks occupied although nothing was ever stored)"),
+                        step,
+                    });
+                    break 'steps;
+                }
                 continue;
             }
             _ => {}
@@ -974,6 +1053,7 @@ fn map_op(op: &Op, fh: impl Fn(u8) -> u8, fi: impl Fn(u8) -> u8) -> Op {
             key: key.clone(),
         },
         Op::Remove { h, id } => Op::Remove { h: fh(*h), id: fi(*id) },
+        Op::FailInsert { h, id, via_entry } => Op::FailInsert { h: fh(*h), id: fi(*id), via_entry: *via_entry },
         o => o.clone(),
     }
 }
@@ -1079,6 +1159,11 @@ fn simpler(op: &Op) -> Vec<Op> {
         Op::Reopen { second_open } => {
             if *second_open {
                 out.push(Op::Reopen { second_open: false });
+            }
+        }
+        Op::FailInsert { h, id, via_entry } => {
+            if *via_entry {
+                out.push(Op::FailInsert { h: *h, id: *id, via_entry: false });
             }
         }
         Op::Reclone { of } => {
